@@ -1,6 +1,6 @@
 import Clikit.Drv.Util
 import Clikit.Model.Switches
-/-! Driver entry of the switches model: `c09.create_io`. -/
+/-! Driver entry of the switches model: `c09.create_io` (the decisions, and the option tokens they are read from). -/
 namespace Clikit.Drv.C09
 open Lean Clikit.Drv Clikit.Switches
 
@@ -12,7 +12,10 @@ def handle (m : String) (j : Json) : Option (R Json) :=
       let c := createIO toks debug
       let ansi := match c.ansi with | .off => "off" | .forced => "forced" | .auto => "auto"
       return Json.mkObj [("ansi", .str ansi), ("verbosity", jNat c.verbosity), ("quiet", .bool c.quiet),
-                         ("interactive", .bool c.interactive), ("help", .bool (helpSwitch toks))]
+                         ("interactive", .bool c.interactive), ("help", .bool (helpSwitch toks)),
+                         -- what `hasTok` tests membership in: `RawArgs.option_tokens` of the real args (code points)
+                         ("option_tokens", jList (fun (t : Str) => jList (fun (ch : Char) => jNat ch.toNat) t)
+                            (Clikit.Tokenizer.optionTokens toks))]
   | _ => none
 
 end Clikit.Drv.C09
